@@ -376,6 +376,9 @@ var notInheritedAttributes = utils.NewSet(
 	"clip",
 	"clip-path",
 	"filter",
+	// the computed font size is passed down while drawing (drawingDims.fontSize): inheriting
+	// the specified value would apply a relative size (em, ex, %) once more at every level
+	"font-size",
 	"height",
 	"id",
 	"mask",
